@@ -654,9 +654,14 @@ pub fn c03(tier: &str) -> ! {
     } else {
         run_sched(&mut rep, "reader-vs-compaction/p1d3", &c03_programs(), (1, 3), 4, false, 1, Duration::from_secs(15), own);
     }
+    if t {
+        run_sched(&mut rep, "snapshot-stability/p3d4", &c03_stability_programs(), (3, 4), 8, false, 2, Duration::from_secs(600), own);
+    } else {
+        run_sched(&mut rep, "snapshot-stability/p2d3", &c03_stability_programs(), (2, 3), 2, false, 1, Duration::from_secs(10), own);
+    }
     finish_common(&mut rep);
     sched_assumptions(&mut rep);
-    rep.cov("oracle", json!("sequence part: after every operation, for every live snapshot get(k, snap) and forward+backward scans at the snapshot equal the model frozen at its creation, and a held iterator re-scanned yields its frozen model; schedule part: snapshot reads / iterator scans concurrent with overwrite, delete, flush, compaction and obsolete-file deletion are linearizable at their creation point and never fail (strict unlink)"));
+    rep.cov("oracle", json!("sequence part: after every operation, for every live snapshot get(k, snap) and forward+backward scans at the snapshot equal the model frozen at its creation, and a held iterator re-scanned yields its frozen model; schedule part: snapshot reads / iterator scans concurrent with overwrite, delete, flush, compaction and obsolete-file deletion are linearizable at their creation point and never fail (strict unlink); every snapshot read reads its keys twice through the snapshot and must get the same answers (snapshot taken while a write is in flight)"));
     rep.finish()
 }
 
